@@ -770,7 +770,8 @@ def run(ctx):
     rec = ctx.rec
     cover.start(['atomman/core/Atoms.py', 'atomman/core/System.py'])
 
-    nhist = ctx.pick(640, 4800)
+    nhist = ctx.pick(640, 6000)
+    pairs = set()
     nops = ctx.pick(25, 40)
     for i in ctx.cases('histories', nhist):
         rng = ctx.rng
@@ -788,6 +789,7 @@ def run(ctx):
             chk.ent(e, 'init', 'target')
         done = 0
         aborted = False
+        prev = None
         for j, kind in enumerate(kinds):
             views = [(e.typ, e.model) for e in run_.pool]
             op = O.make_op(kind, crng, rng, views)
@@ -807,9 +809,18 @@ def run(ctx):
                 rec.fail('harness: the generator produced an op the model gives no meaning to', 'harness:out-of-domain', error=str(ex), ops=chk.ops)
                 aborted = True
                 break
+            except Exception as ex:            # the harness tripped over something the real objects handed back
+                import traceback
+                rec.fail('results of the real operation can be examined by the monitors', f'{kind}:monitor-exception',
+                         exception=ex, where=traceback.format_exc()[-1200:], ops=chk.ops)
+                aborted = True
+                break
             done += 1
             rec.count('ops')
             rec.count('op:' + label)
+            if prev is not None:
+                pairs.add((prev, kind))
+            prev = kind
             if rec.n_violations > v0 and not readonly:   # the operation itself misbehaved: stop comparing this history
                 aborted = True
                 break
@@ -837,6 +848,9 @@ def run(ctx):
         if i < 24:
             rec.sample(dict(natoms=init['natoms_class'], schema=init['schema'], ops=[{k: v for k, v in o.items() if k not in ('operand',)}
                                                                                      for o in chk.ops[1:7]]))
+
+    rec.count('distinct-consecutive-op-kind-pairs(summed over workers)', len(pairs))
+    rec.floor('distinct-consecutive-op-kind-pairs(summed over workers)', 1000)
 
     # constructor forms ------------------------------------------------------------
     CT = ['default', 'single-pos', 'scalar-atype', 'inferred-from-atype', 'inferred-from-pos', 'refuse-atype-pos-lengths',
@@ -938,7 +952,7 @@ def run(ctx):
         rec.floor('reach:' + name, 1)
 
     q = ctx.quick
-    rec.floor('ops', 4000 if q else 50000)
+    rec.floor('ops', 8000 if q else 200000)
     rec.floor('full-comparisons', 10000)
     rec.floor('constructor:compared', 40)
     rec.floor('constructor:refused', 40)
